@@ -12,6 +12,15 @@ import (
 var multiLineFeedRegex = regexp.MustCompile(`\n{3,}`)
 var replace = "\n\n"
 
+// An empty line in front of a declaration property, or in front of its first leading comment, starts a new group of properties.
+// The formatter prints the empty line in front of the comment, so the next formatting has to see the same groups.
+func startsGroup(m *ast.Meta) bool {
+	if m.PreviousEmptyLines > 0 {
+		return true
+	}
+	return len(m.Leading) > 0 && m.Leading[0].PreviousEmptyLines > 0
+}
+
 // Replace over three line-feed characters to two characters.
 // Line feeds inside of string literals and block comments are a part of their content so they are kept as they are.
 func trimMultipleLineFeeds(lines string) string {
